@@ -12,7 +12,10 @@ pub mod c05;
 pub mod c07;
 pub mod c10;
 pub mod c11;
+pub mod c15;
 pub mod c16;
+pub mod c17;
+pub mod c18;
 pub mod c19;
 
 pub struct Prop {
@@ -32,7 +35,10 @@ pub const ALL: &[Prop] = &[
     Prop { id: "C07", level: "exploration", run: c07::run, replay: c07::replay },
     Prop { id: "C10", level: "exploration", run: c10::run, replay: c10::replay },
     Prop { id: "C11", level: "exploration", run: c11::run, replay: c11::replay },
+    Prop { id: "C15", level: "fault_enumeration", run: c15::run, replay: c15::replay },
     Prop { id: "C16", level: "exploration", run: c16::run, replay: c16::replay },
+    Prop { id: "C17", level: "fault_enumeration", run: c17::run, replay: c17::replay },
+    Prop { id: "C18", level: "exploration", run: c18::run, replay: c18::replay },
     Prop { id: "C19", level: "exploration", run: c19::run, replay: c19::replay },
 ];
 
